@@ -51,4 +51,6 @@ S53 C16 quick normalize_3loops$
 S54 C20 quick small$
 S55 C13 quick err_9$
 S56 C12 quick getIcosahedronFaces_glue$
+S57 C05 quick k1_gridDisksUnsafe_r0$
+S58 C10 quick sum_edge$
 T
